@@ -10,6 +10,7 @@ import (
 	"encoding/json"
 	"fmt"
 	"math"
+	"math/rand"
 	"os"
 	"reflect"
 	"sort"
@@ -205,7 +206,15 @@ func concreteDraw(mode int, seed int64, k int) float64 {
 
 func Generators(seed int64) func() float64 {
 	k := 0
+	var real *rand.Rand
 	return func() float64 {
+		if drawMode < 0 {
+			// the real PRNG (only used to run the repository's own example requests in both worlds)
+			if real == nil {
+				real = rand.New(rand.NewSource(seed))
+			}
+			return real.Float64()
+		}
 		if drawMode > 0 {
 			k++
 			return concreteDraw(drawMode, seed, k-1)
